@@ -481,11 +481,47 @@ def search_roundtrips(binp, root, log):
     return None, None
 
 
+def search_seek(binp, root, log):
+    """--seek / --length (hex and --raw): the printed output is S[seek..seek+length] of the file's hash stream"""
+    import b3spec
+    d = os.path.join(root, "seekfiles")
+    os.makedirs(d, exist_ok=True)
+    n = 0
+    for content in (b"", b"abc", bytes(i % 251 for i in range(1500))):
+        name = "s%d" % len(content)
+        with open(os.path.join(d, name), "wb") as f:
+            f.write(content)
+        for seek, length in ((0, 32), (0, 1), (0, 64), (0, 65), (0, 131), (1, 32), (1, 63), (1, 64), (1, 99), (33, 32), (40, 32),
+                             (50, 32), (63, 1), (63, 2), (64, 64), (65, 130), (100, 64), (303, 102), (1000, 300),
+                             ((1 << 32) * 64 - 7, 20), ((1 << 64) - 1 - 40, 40)):
+            want = b3spec.blake3(content, out_len=length, seek=seek)
+            for raw in (False, True):
+                args = ["--seek", str(seek), "--length", str(length)] + (["--raw"] if raw else []) + ["--", name]
+                rc, out, err = _b3sum(binp, d, args)
+                if rc == -9:
+                    continue
+                n += 1
+                exp = want if raw else (want.hex() + "  " + name + "\n").encode()
+                if rc != 0 or out != exp:
+                    rc2, out2, err2 = _b3sum(binp, d, args)       # confirm once more
+                    if rc2 == -9 or (rc2 == 0 and out2 == exp):
+                        continue
+                    sc = {"kind": "b3sum_seek", "content_hex": content.hex(), "seek": seek, "length": length, "raw": raw}
+                    log["seek_checked"] = n
+                    return sc, {"field": "b3sum %s output" % " ".join(args[:-2]),
+                                "observed": (out.hex() if raw else out.decode("utf-8", "replace"))[:400] if rc == 0 else "rc=%s %s" % (rc, err[-200:]),
+                                "expected": (exp.hex() if raw else exp.decode())[:400]}
+    log["seek_checked"] = n
+    return None, None
+
+
 def _order(function):
     """which half first: obligations of the printing side start with the round trips"""
-    if re.search(r"hash_one_input|write_hex_output|filepath_to_string|Args::", function or ""):
-        return ("roundtrips", "lines")
-    return ("lines", "roundtrips")
+    if re.search(r"write_hex_output|write_raw_output", function or ""):
+        return ("seek", "roundtrips", "lines")
+    if re.search(r"hash_one_input|filepath_to_string|Args::", function or ""):
+        return ("roundtrips", "seek", "lines")
+    return ("lines", "roundtrips", "seek")
 
 
 def find(prop, fo, seed, deadline=None):
@@ -508,7 +544,8 @@ def find(prop, fo, seed, deadline=None):
             if deadline and time.time() > deadline - 5:
                 log["note"] = "time budget exhausted before " + half
                 break
-            sc, m = (search_lines(binp, seed, log) if half == "lines" else search_roundtrips(binp, root, log))
+            sc, m = (search_lines(binp, seed, log) if half == "lines" else search_seek(binp, root, log) if half == "seek"
+                     else search_roundtrips(binp, root, log))
             if sc:
                 found = {"scenario": sc, "features": [], "family": "b3sum_checkfile/" + half, "field": m.get("field"),
                          "observed": m.get("observed"), "expected": m.get("expected"), "panic": m.get("panic"),
@@ -528,6 +565,21 @@ def rerun(failing_input):
         binp, blog = build(root)
         if not binp:
             return {"reproduced": False, "error": "b3sum scratch build failed: " + str(blog.get("error"))[-1500:]}
+        if sc["kind"] == "b3sum_seek":
+            import b3spec
+            d = os.path.join(root, "seekfiles")
+            os.makedirs(d, exist_ok=True)
+            content = bytes.fromhex(sc["content_hex"])
+            with open(os.path.join(d, "s"), "wb") as f:
+                f.write(content)
+            args = ["--seek", str(sc["seek"]), "--length", str(sc["length"])] + (["--raw"] if sc["raw"] else []) + ["--", "s"]
+            rc, out, err = _b3sum(binp, d, args)
+            want = b3spec.blake3(content, out_len=sc["length"], seek=sc["seek"])
+            exp = want if sc["raw"] else (want.hex() + "  s\n").encode()
+            if rc == 0 and out == exp:
+                return {"reproduced": False, "observed": "agrees with the oracle", "scenario": sc}
+            return {"reproduced": True, "field": "b3sum --seek/--length output", "observed": out.hex()[:300],
+                    "expected": exp.hex()[:300], "scenario": sc, "repo": common.REPO}
         if sc["kind"] == "b3sum_line":
             line = bytes.fromhex(sc["line_utf8_hex"]).decode("utf-8", "surrogatepass")
             a = run_driver(binp, [("L", line.encode("utf-8"))])[0]
